@@ -135,6 +135,15 @@ def ensure_build(variant="std"):
         return src
 
 
+def tool_env(src, **extra):
+    """environment for running the scratch tools: the tree's own mke2fs.conf, no user config"""
+    e = {"MKE2FS_CONFIG": os.path.join(src, "misc", "mke2fs.conf"), "E2FSCK_CONFIG": "/dev/null",
+         "MKE2FS_FIRST_META_BG": "", "LC_ALL": "C", "TZ": "UTC"}
+    e.pop("MKE2FS_FIRST_META_BG")
+    e.update(extra)
+    return e
+
+
 def build_harness(name, src, variant="std", extra_src=(), libs=None):
     """Compile harness/<name>.c against the scratch tree; returns path of binary."""
     out = os.path.join(SCRATCH, variant, "bin")
